@@ -41,18 +41,20 @@ vlib.standard_check({
     #   7 writes issued under reset (observation only: counted, never a violation) /
     #   8 reset-logic family: addResetLogic / initZero / reset ROM x sync, async reset x depth 1, 2, pow2, non-pow2 x longer reset x writes during / right after reset /
     #   9 read-register family: read latency registers with/without reset value x no / uniform / per-stage enable scopes, RAM and ROM, enable low after reset
+    #   11 power-on initialisation family: ClockConfig initializeRegs x initializeMemory (explicit, all four), sync/async/no reset, memoryResetType
+    #      NONE / as reset, declared contents + write port (and ROMs), reads before the first write; contents present iff ROM or initializeMemory
     #   10 = 9 plus read-modify-write while the read ports of the memory run under different enable conditions, and latency 3 (ring buffer
     #      mode of the hazard logic) under an enable: two known findings (harness/examples/c07_finding_hazard_bypass_mixed_enable_domains.cpp.txt)
-    "streams": {"quick": [[2000, 300, 0], [500, 200, 1], [500, 200, 2], [300, 200, 3], [150, 200, 4], [300, 300, 5], [200, 100, 6], [100, 100, 7], [500, 60, 8], [700, 80, 9], [400, 80, 10]],
-                "thorough": [[12000, 400, 0], [4000, 300, 1], [4000, 300, 2], [2000, 300, 3], [1000, 300, 4], [2000, 400, 5], [1000, 200, 6], [500, 3000, 0, 1], [500, 100, 7], [5000, 80, 8], [8000, 100, 9], [4000, 100, 10]]},
-    "search": [[3000, 300, 0], [600, 200, 1], [600, 200, 2], [600, 300, 5], [2000, 60, 8], [2000, 80, 9], [1500, 80, 10]],
+    "streams": {"quick": [[2000, 300, 0], [500, 200, 1], [500, 200, 2], [300, 200, 3], [150, 200, 4], [300, 300, 5], [200, 100, 6], [100, 100, 7], [500, 60, 8], [700, 80, 9], [400, 80, 10], [500, 60, 11]],
+                "thorough": [[12000, 400, 0], [4000, 300, 1], [4000, 300, 2], [2000, 300, 3], [1000, 300, 4], [2000, 400, 5], [1000, 200, 6], [500, 3000, 0, 1], [500, 100, 7], [5000, 80, 8], [8000, 100, 9], [4000, 100, 10], [5000, 80, 11]]},
+    "search": [[3000, 300, 0], [600, 200, 1], [600, 200, 2], [600, 300, 5], [2000, 60, 8], [2000, 80, 9], [1500, 80, 10], [2000, 60, 11]],
     "signature": signature,
     "eval_key": "ops",
     "nontrivial": lambda t: t.get("read_after_write_collisions", 0) + t.get("write_write_collisions", 0) + t.get("hazard_cases", 0),
     "rule": "memory designs built through the frontend Memory API: 1-3 read ports and 1-2 write ports (0 and 3 in the guard stream) in random declaration "
             "order, shared/own address pins, IF-conditional and unconditional writes, write data from a pin or pin XOR an earlier read port (read-modify-write: "
             "makes post-processing retime the write ports and generate hazard bypass logic), depth in {2,4,8,16,32,64} and {3,5,6,7,12,17,24,100}, width in "
-            "{1,2,3,4,5,8,12,16,33}, MemType x read latency 0..3, no/zero/random/partial power-on contents, clock with and without synchronous reset, memory "
+            "{1,2,3,4,5,8,12,16,33}, MemType x read latency 0..3, no/zero/random/partial declared power-on contents (present iff ROM or the write clock's initializeMemory: explicit initializeRegs x initializeMemory clocks), clock with and without synchronous reset, memory "
             "reset logic (memoryResetType SYNCHRONOUS / ASYNCHRONOUS; initZero, addResetLogic network, reset ROM; depth 1, 2, 2^k, non 2^k; reset held 0..3 cycles longer than required; writes during reset or forced right after it), read latency registers with reset values and/or enable scopes (none / one read enable / per-stage enables with own, shared or no pin; RAMs and ROMs; enables low for 1..4 cycles after reset then toggling independently of the addresses; read-modify-write with the write port in the read enable's scope), checked against ArrMem followed by the proved enable-gated pipeline model (pipeStep), no device / Intel Arria 10, Cyclone 10 / Xilinx Kintex Ultrascale, Zynq-7; random access sequences with "
             "two hot addresses and same-address bursts; every cycle: model vs sampled async read data (DIFF), data pins before and after design.postprocess() "
             "vs ArrMem with the declared latency (PROPFAIL); non-trivial = same-cycle read-after-write and write-write collisions + designs with bypass logic",
